@@ -306,6 +306,21 @@ Example C18_nonvacuous_parse :
   comps_ok [] [[97]; [46; 46]; [98]] = false /\ comps_ok [97] [[98]] = true /\ parse_spec true [97; 47; 98] = None.
 Proof. vm_compute. repeat split. Qed.
 
+(* the content rule is EXACT: <content>, <content>.tmp, <content>.lock are skipped, look-alike names are not
+   ("/d/content" = 47 100 47 99 111 110 116 101 110 116; ".tmp.bak", ".lock~", "2" appended) *)
+Example C18_nonvacuous_content :
+  let c := [47; 100; 47; 99; 111; 110; 116; 101; 110; 116] in
+  filter_content [c] c = true /\
+  filter_content [c] (c ++ SUFFIX_TMP) = true /\
+  filter_content [c] (c ++ SUFFIX_LOCK) = true /\
+  filter_content [c] (c ++ SUFFIX_TMP ++ [46; 98; 97; 107]) = false /\
+  filter_content [c] (c ++ SUFFIX_TMP ++ [50]) = false /\
+  filter_content [c] (c ++ SUFFIX_LOCK ++ [126]) = false /\
+  filter_content [c] (c ++ SUFFIX_LOCK ++ [101; 100]) = false /\
+  filter_content [c] (c ++ [50]) = false /\
+  filter_content [c] (removelast c) = false.
+Proof. vm_compute. repeat split. Qed.
+
 Example C18_nonvacuous_selection :
   let ff := match filter_parse true [42; 46; 99] with Some f => [f] | None => [] end in
   let fd := match filter_parse_disk true [100; 49] with Some f => [f] | None => [] end in
